@@ -85,15 +85,17 @@ PROP = dict(
          "collinear, coincident, lattice, duplicates, one outlier) x weights (ones, integer, dyadic fractional, zeros, one dominant, "
          "arbitrary fractional) x part_count 1..n+2 x orders 0..MAX+1 x pools 1,2,4,8,16, plus a malformed stream (1/15: weights or ids shorter/longer "
          "than the points; outside the contract, model vs implementation only); (3) ZCurve on the same point families x "
-         "part_count 1..n+2 x orders 0..max_order+1 x the same pools. distinct = distinct (stream, points, weights, part_count, order, "
+         "part_count 1..n+2 x orders 0..max_order+1 x the same pools, 1/3 of them midline lattices (product grids on a 0.1 / 0.25 lattice, "
+         "axes spanning zero with bounds of magnitude 16..32 mostly, points on the midlines of the first levels, orders 2..9). distinct = distinct (stream, points, weights, part_count, order, "
          "pool); non-trivial = bsearch: len >= 2; curves: at least 3 points, part_count >= 2, an accepted order and matching lengths",
     class_names={0: "Ok", 2: "error (InvalidOrder)", 3: "panic", 4: "hang", 10: "bsearch"},
     trusted_base=[
         "axioms: none (every theorem of Properties/C09.v is closed under the global context)",
         "slice::binary_search_by = the loop transcribed in coq/Lib/Sorting.v (from rust-src of 1.97.0-nightly; validated against the "
         "linked std on every run by the bsearch stream, unsorted arrays included)",
-        "the per-point Hilbert indices and the ZCurve quadrant codes / final permutation enter as data recorded by the coupe_verif hooks "
-        "(the encoders are C08's subject; nalgebra's rotation and the box arithmetic are not modelled)",
+        "the per-point Hilbert indices (the encoders are C08's subject) and ZCurve's bounding box, rotated coordinates and final permutation "
+        "enter as data recorded by the coupe_verif hooks (nalgebra's rotation is not modelled); the quadrant codes are recomputed from box "
+        "and rotated coordinates by the modelled box arithmetic (center/contains/region/sub_aabb on f64) and compared with the recorded ones",
         "par_sort_unstable_by_key returns a permutation of its input sorted by the key (tie order arbitrary): sort_contract",
         "f64 additions of the weights are exact for the cases whose split positions are compared bit-for-bit (flag `exact`); for the other "
         "cases the recorded split vector is an input of the comparison (the theorems hold for EVERY split vector)",
@@ -101,6 +103,9 @@ PROP = dict(
     assumptions=[
         "HilbertCurve: points, weights and part ids have the same length; part_count >= 1; weights finite and non-negative",
         "ZCurve: points and part ids have the same length; part_count >= 1; order <= max_order (64 in 2-D, 42 in 3-D)",
+        "geometric clause (the Z-order cell of a point contains the point): claimed for points that the top-level box contains, level by "
+        "level while the midlines are eps-effective (c - eps < c < c + eps; void from magnitude 32 on, where HEAD's absolute tolerance "
+        "10*EPSILON of BoundingBox::contains is below half an ulp)",
         "termination of weighted_quantiles is proved for part_count <= 2 only (C09_quantiles_terminate_partial); for part_count >= 3 it "
         "is NOT proved (open obligation of DESIGN §7 C01): the model runs it on fuel, the correspondence watches for hangs, and "
         "every C09 theorem about HilbertCurve is stated for runs that return",
@@ -112,7 +117,8 @@ MANIFEST = dict(
          "key on EVERY array, sorted or not; hence C09_hilbert_monotone: for every vector of split positions HilbertCurve's part id is a "
          "monotone function of the curve index (each part is one interval of the curve), ids <= number of splits. C09_zcurve_runs: for "
          "every quadrant function and every sort oracle, ZCurve's final permutation is sorted by the depth-`order` Z cell, parts are "
-         "consecutive chunks of it whose sizes differ by at most one and sum to n. Certified checkers judge every implementation output.",
+         "consecutive chunks of it whose sizes differ by at most one and sum to n; C09_region_sub_contains: the sub-box of the quadrant chosen "
+         "for a point contains the point (f64 box arithmetic, wherever the code's tolerance is effective). Certified checkers judge every implementation output.",
     design_ref="DESIGN.md §7 C09",
     note="Trusted: Coq kernel; model<->code tie = translator (tolerance, order limits, dedup absence, chunk guard) + differential runs with "
          "hook-recorded indices/codes/permutation; termination of weighted_quantiles proved for <= 2 parts only, otherwise unproved (fuel + watchdog). No axioms.",
